@@ -87,43 +87,6 @@ func countNodes(n *m.Node) int {
 	return s
 }
 
-// flattenModel: ReduceNesting as documented - an and/or directly inside the same
-// operator is merged into it (bottom-up), as long as every operand of the outer
-// operator is a leaf or such an operator.
-func flattenModel(n *m.Node) *m.Node {
-	c := &m.Node{Kind: n.Kind, Name: n.Name, Val: n.Val}
-	for _, k := range n.Kids {
-		c.Kids = append(c.Kids, flattenModel(k))
-	}
-	and, or := m.IsAnd(c.Name), m.IsOr(c.Name)
-	if c.Kind != m.KOp || !(and || or) {
-		return c
-	}
-	var kids []*m.Node
-	for _, k := range c.Kids {
-		switch {
-		case k.IsLeaf():
-			kids = append(kids, k)
-		case k.Kind == m.KOp && ((and && m.IsAnd(k.Name)) || (or && m.IsOr(k.Name))):
-			kids = append(kids, k.Kids...)
-		default:
-			return c
-		}
-	}
-	c.Kids = kids
-	return c
-}
-
-func maxOperands(n *m.Node) int {
-	mx := len(n.Kids)
-	for _, k := range n.Kids {
-		if x := maxOperands(k); x > mx {
-			mx = x
-		}
-	}
-	return mx
-}
-
 func countFast(n *m.Node) int {
 	c := 0
 	if n.Kind == m.KOp && len(n.Kids) == 2 && n.Kids[0].IsLeaf() && n.Kids[1].IsLeaf() {
